@@ -452,6 +452,10 @@ class FromArgs(Generic[T]):
         return bool(self._i_to_arg)
 
     def to_tuple(self) -> Tuple[T, ...]:
+        # Every index up to the last one has to be set, otherwise the args with a
+        # higher index would point past the end of the tuple
+        if self._i_to_arg.keys() != set(range(len(self))):
+            raise ValueError(f"Indices of args are not consecutive: {self._i_to_arg}")
         return tuple(v for _, v, in sorted(self._i_to_arg.items()))
 
     def next_index(self, arg: T) -> int:
